@@ -560,7 +560,28 @@ class Executor3(Executor2):
             raise Unsupported("loop_index() outside a for-loop over a reference list")
         return st.env["$i"]
 
+    def assume_unreferenced_other(self, st, key, f, o, r):
+        if f.kind.startswith("reflist"):
+            el, n = self.heap_arrays(st, key, f)
+            k = z3.Int("fr!i%d" % self.fresh_n)
+            st.assume(z3.ForAll([r, k], z3.Implies(z3.And(0 <= k, k < z3.Select(n, r)), z3.Select(z3.Select(el, r), k) != o)))
+
     def exec_loop(self, s, st):
+        if isinstance(s, ast.For) and isinstance(s.iter, ast.Call) and isinstance(s.iter.func, ast.Attribute) and not s.iter.args and not s.iter.keywords:
+            # `for x in obj.some_iterator()`: a traversal the suite names as a (ghost) reference list
+            # (ASSUMED: what the traversal yields and in which order -- property C15)
+            probe = st.copy()
+            try:
+                recv = self.ev(s.iter.func.value, probe)
+            except Unsupported:
+                recv = None
+            if recv is not None and recv.kind == "ref" and recv.cls is not None:
+                for cname in self._mro(recv.cls):
+                    view = self.iter_views.get("%s.%s" % (cname, s.iter.func.attr))
+                    if view is not None:
+                        it = ast.copy_location(ast.Attribute(value=s.iter.func.value, attr=view, ctx=ast.Load()), s.iter)
+                        ast.fix_missing_locations(it)
+                        return self.exec_for_reflist(s, st, iter_expr=it)
         if isinstance(s, ast.For):
             probe = st.copy()
             try:
@@ -647,6 +668,8 @@ class Executor3(Executor2):
         exits_out = []
         ex_st = head.copy()
         ex_st.assume(iv == n0)
+        for nm, spec in (L.after or {}).items():
+            self._ob(ex_st, self.inv_eval(spec, ex_st, entry), "%s.after[%s]" % (tag, nm), "loop")
         ex_st.env.pop("$i", None)
         if saved_i is not None:
             ex_st.env["$i"] = saved_i
